@@ -62,7 +62,7 @@ Definition step (st : rstate) (op : list tok) : rstate * list tok :=
     else if name =? "start" then
       match args with
       | TN _ :: chunks =>
-        let '(c', r) := start_stream c (init_win c) (zs chunks) in
+        let '(c', r) := start_stream c (zs chunks) in
         (mkr c' (rq st) (rcap st), match r with Some i => [TS "id"; TN i] | None => [TS "refused"] end)
       | _ => bad end
     else if name =? "wu" then
